@@ -16,6 +16,7 @@ ASSUMPTIONS = ["the thread-local interception flag is observed on the driver thr
 THEOREMS = ["C09_returns_to_idle", "C09_idle_throughout_history", "C09_flag_restored", "C09_history_independent", "C09_as_fresh",
             "C09_idle_after_any_interleaving"]
 
+INTERRUPT_KINDS = ["custom", "keyboard", "sysexit", "genexit"]   # which BaseException an "interrupt" of the program is
 W = dict(rd.DEFAULT_W, fault=0.25, discard=0.6, force=0.9, interrupt=0.15, raise_=0.25, enable=0.1, missing_opts=0.3)
 
 
@@ -76,7 +77,7 @@ def generate(rng, tier):
         runs = []
         for _ in range(rng.randrange(2, 7)):
             runs.append(rand_run(rng, runs))
-        cases.append(dict(draws=rd.rand_draws(rng, 12), runs=runs, cassette="memory", probe_fresh=True))
+        cases.append(dict(interrupt_kind=rng.choice(INTERRUPT_KINDS), draws=rd.rand_draws(rng, 12), runs=runs, cassette="memory", probe_fresh=True))
     return cases
 
 
